@@ -72,7 +72,7 @@ def run(chk: lib.Check):
                             except Exception as ex:  # noqa: BLE001
                                 chk.violation(f"wrap-raises:{type(ex).__name__}", f"wrapping element {e.get('id')} raised {ex!r}", {"model": spec0["name"], "uuid": e.get("id")})
             rng.shuffle(objs)
-            sample = objs if not quick else objs[:500]
+            sample = objs      # every object, every tier
             # ---------------- group 1: every public attribute of every object (dir), incl. repetition
             by_class_done: set = set()
             for o in sample:
@@ -187,6 +187,43 @@ def run(chk: lib.Check):
             base = guard(model, base, "model level introspection", "reads-write:model", {"model": spec0["name"]})
             guard(model, base_exact, "the whole session (bytes written by capellambse's own writer)", "reads-write:session", {"model": spec0["name"]}, exact=True)
             del model
+    # ---------------- diagrams whose stored layout is damaged (elements the renderer has to skip): the error paths of the
+    # factories must not leave anything behind either
+    import shutil
+    from lxml import etree
+    for spec0 in specs[: (1 if quick else 3)]:
+        for rnd in range(3 if quick else 12):
+            with lib.scratch("c11-") as tmp:
+                src = pathlib.Path(spec0["path"]).parent
+                shutil.copytree(src, tmp / "m", ignore=shutil.ignore_patterns("*.license"))
+                aird = tmp / "m" / pathlib.Path(spec0["path"]).name
+                tree = etree.parse(str(aird), etree.XMLParser(remove_blank_text=False, huge_tree=True))
+                cands = [e for e in tree.getroot().iter() if isinstance(e.tag, str) and e.tag in ("layoutConstraint", "bendpoints")]
+                if not cands:
+                    continue
+                k = min(len(cands), 25)
+                for e in rng.sample(cands, k):
+                    if e.getparent() is not None:
+                        e.getparent().remove(e)
+                aird.write_bytes(etree.tostring(tree, xml_declaration=True, encoding="UTF-8"))
+                try:
+                    kw = {a: b for a, b in spec0.items() if a not in ("name", "path")}
+                    model = capellambse.MelodyModel(str(aird), **kw)
+                except Exception as ex:  # noqa: BLE001
+                    stats[f"damaged-load-raises:{type(ex).__name__}"] += 1
+                    continue
+                base = fingerprint(model)
+                for d in model.diagrams:
+                    for fmt in (None, "svg"):
+                        try:
+                            d.render(fmt)
+                            stats["damaged-render-ok"] += 1
+                        except Exception as ex:  # noqa: BLE001
+                            stats[f"damaged-render-raises:{type(ex).__name__}"] += 1
+                    chk.note_case((spec0["name"], "damaged", rnd, d.uuid))
+                    base = guard(model, base, f"rendering diagram {d.name!r} of a model whose .aird lost {k} layoutConstraint/bendpoints elements",
+                                 f"render-writes:damaged-layout:{d.name}", {"model": spec0["name"], "diagram": d.uuid, "name": d.name, "round": rnd, "removed": k})
+                del model
     chk.coverage.update({"counts": dict(sorted(stats.items())),
                          "explanation": "exhaustive enumeration on the implementation: every public attribute from dir() of every sampled (quick) / every (thorough) semantic object, "
                                         "repr/str/HTML of objects and of the lists their relations return, searches, validation, metrics, ReqIF export of every module, every diagram "
